@@ -6,6 +6,7 @@
 #include <memory>
 #include <set>
 #include <string>
+#include <system_error>
 
 #include "common.h"
 
@@ -36,11 +37,13 @@ Mon* M = nullptr;
 std::map<std::string, uint64_t> g_extra;
 
 // A member of every tracked callable: registers its address while alive, poisons itself when destroyed.
+const char* const PAYLOAD = "state-captured-by-the-callable-that-must-arrive-intact-in-the-new-thread";
 struct Tracker {
     int magic;
-    Tracker() : magic(0x600D) { sim::Untracked u; M->live.insert(this); M->constructed++; }
-    Tracker(const Tracker&) : magic(0x600D) { sim::Untracked u; M->live.insert(this); M->constructed++; }
-    Tracker(Tracker&&) noexcept : magic(0x600D) { sim::Untracked u; M->live.insert(this); M->constructed++; }
+    std::string payload;   // a moved-from copy loses it: the thread must run a copy that was never moved out of
+    Tracker() : magic(0x600D), payload(PAYLOAD) { sim::Untracked u; M->live.insert(this); M->constructed++; }
+    Tracker(const Tracker& o) : magic(0x600D), payload(o.payload) { sim::Untracked u; M->live.insert(this); M->constructed++; }
+    Tracker(Tracker&& o) noexcept : magic(0x600D), payload(std::move(o.payload)) { sim::Untracked u; M->live.insert(this); M->constructed++; }
     Tracker& operator=(const Tracker&) = default;
     ~Tracker() {
         sim::Untracked u;
@@ -52,6 +55,8 @@ struct Tracker {
         sim::Untracked u;
         if (!M->live.count(this))
             sim::violation("dead-callable", std::string("the callable object invoked by the new thread is not alive at ") + when + " (its copy was destroyed before the thread ran)");
+        if (payload != PAYLOAD)
+            sim::violation("callable-state-lost", std::string("the callable invoked by the new thread is a moved-from shell at ") + when + " (its captured state is gone)");
     }
 };
 
@@ -180,7 +185,18 @@ void body(const Json& p) {
     int a = 41, b = 43;
     std::string s = "lvalue-string-argument-that-does-not-fit-into-the-small-string-buffer";
     sim::ev(E_LAUNCH_CALL, kind, nargs);
-    tulz::Thread* t = do_launch(kind, path, nargs, a, s, b);
+    tulz::Thread* t = nullptr;
+    try {
+        t = do_launch(kind, path, nargs, a, s, b);
+    } catch (const std::system_error&) {
+        // injected fault: pthread_create failed (EAGAIN) and the library reported it.  Then nothing may ever run.
+        sim::ev(E_LAUNCH_RET, 1, 0);
+        for (int i = 0; i < 6; i++) sim::yield();
+        sim::Untracked u;
+        g_extra["launch_failed_with_system_error"]++;
+        if (M->calls_begun != 0) sim::violation("call-count", "start() threw std::system_error but the callable was invoked " + std::to_string(M->calls_begun) + " times");
+        return;
+    }
     sim::ev(E_LAUNCH_RET, 0, 0);
     auto finished_implies_ended = [&](const char* when) {
         bool f = t->isFinished();
@@ -258,7 +274,8 @@ const char* event_name(int k) {
 bool owns(const std::string& prop, const std::string& c) {
     if (prop != "C20") return false;
     static const std::set<std::string> s = {"dead-callable", "not-a-new-thread", "finished-too-early", "call-count", "not-finished-after-join", "runnable-not-destroyed-once",
-                                            "runnable-destroyed-while-running", "wrong-arguments", "callable-leaked", "join-hang", "terminate", "crash-signal", "tulz-assert"};
+                                            "runnable-destroyed-while-running", "wrong-arguments", "callable-leaked", "join-hang", "terminate", "crash-signal", "tulz-assert",
+                                            "callable-state-lost"};
     return s.count(c) > 0 || c.rfind("asan:", 0) == 0 || c.rfind("tsan:", 0) == 0;
 }
 
@@ -279,6 +296,7 @@ void generate(sim::Rng& g, const std::string&, const std::string& tier, Json& pr
     }
     program.set("owner", owner);
     drv::draw_sched(g, cfg, false, 40);
+    if (kind != 4 && g.below(5) == 0) cfg.create_fail_rate = 0.4;  // pthread_create fails with EAGAIN now and then (not for the Runnable path: who owns it then is unspecified)
     cfg.step_cap = 5000;
 }
 
